@@ -5,6 +5,7 @@ documented domains, then swept: every byte position through all 256 values, adja
 record counts, announced strides.  Nothing here knows what a payload means."""
 import itertools
 import random
+import re
 
 from harness import console as C
 
@@ -105,8 +106,31 @@ def pair_sweep(proto, rng, per_pair=None, kinds=None):
                     yield kind, typ, q, f"{kind}/pair{pos}"
 
 
+def fill_tails(payload, known, rng):
+    """AT5 0xC0 payload: bytes of each record beyond the known layout become arbitrary."""
+    p = list(payload)
+    normal = (p[2] << 8) | p[3]
+    stride = (p[4] << 8) | p[5]
+    count = (p[6] << 8) | p[7]
+    for k in range(count):
+        for j in range(known, stride):
+            p[8 + normal + k * stride + j] = rng.randrange(256)
+    return p
+
+
 def count_sweep(proto):
-    """Record counts 0..16 and, for AT5, announced strides known .. known+4."""
+    """Record counts 0..16 and, for AT5, announced strides known .. known+4 (tails zero and arbitrary)."""
+    for item in _count_sweep(proto):
+        yield item
+        kind, typ, pl, tag = item
+        m = re.search(r"/stride(\d+)$", tag)
+        known = {"ZoneStatus": 8, "AcStatus": 8, "AcTimerStatus": 9}.get(kind)
+        if proto == "at5" and m and known and int(m.group(1)) > known:
+            rng = random.Random(len(pl) * 131 + int(m.group(1)))
+            yield kind, typ, fill_tails(pl, known, rng), tag.replace("/stride", "/tailstride")
+
+
+def _count_sweep(proto):
     rng = random.Random(5)
     if proto == "at4":
         for n in range(0, 17):
